@@ -78,3 +78,10 @@ def fill(C, PENDING):
       "(complete to year 9999 in thorough), point probes in random order are judged against the reference, and ids, version, alias maps, fixed "
       "UTC+-hh[:mm[:ss]] ids and validate() are checked.",
       "The NZD format and yearly-rule semantics as understood by the independent reader/evaluator (Appendix A.1/A.2).", "§3 C06")
+
+    C("C14", "exploration", "runtime monitoring: write/read round trip with exact-consumption monitor, independent decoder, compact-form model, byte-exact re-encoding of real zones",
+      "Every primitive is written by the real writer and read by the real reader (equality, exact consumption) and also decoded by the independent reader; "
+      "millisecond and transition encodings are compared with the documented compact form (all 172,799,999 ms values in thorough); generated yearly rules, "
+      "recurrences, alternating maps, precalculated and fixed zones round-trip with identical behaviour; all 724 rule-based zones of both real files must "
+      "re-encode to their original bytes, a mismatch being attributed to the field where the bytes first differ.",
+      "Codec classes are internal (no public surface): if they disappear the check is inconclusive. Trusts the independent reader's understanding of the format.", "§3 C14")
